@@ -289,6 +289,8 @@ def _sym(l):
         return 'either %s or %s' % (_sym(l[1]), _sym(l[2]))
     if l[0] == 'nat':
         return 'natural sort of %s' % (l[1],)
+    if l[0] == 'cat':
+        return ' followed by '.join(_sym(x) for x in l[1:])
     return "`%s`" % l[1]
 
 
@@ -523,6 +525,17 @@ class AxisInterp:
                     newv = newv.with_(lay=ll if fresh_list else None)
                 elif newv.k == 'list' and v.func.attr != 'append':
                     newv = newv.with_(lay=None)
+                if v.func.attr == 'extend' and cur is not None and \
+                        cur.k in ('list', 'ids', 'md') and cur.lay and \
+                        item.lay and item.lay != ('new',):
+                    # one extension is tracked; a collection that keeps
+                    # growing (extended again) has no simple block order
+                    catlay = ('cat', cur.lay, item.lay) \
+                        if cur.lay[0] != 'cat' else None
+                    if cur.k in ('ids', 'md'):
+                        env[name] = cur.with_(c='concat', lay=catlay)
+                        return env
+                    newv = newv.with_(lay=catlay)
                 if cur is None or cur.k in ('list', 'top'):
                     env[name] = newv
                 elif cur.k in ('ids', 'md') and v.func.attr == 'extend' \
@@ -1022,8 +1035,13 @@ class AxisInterp:
                                  ast.BitXor)) and a.k in ('ids', 'list') \
                     and b.k in ('ids', 'list', 'top'):
                 # set algebra over ids of one axis stays on that axis
-                if a.k == 'ids' and (b.k != 'ids' or b.ax in (None, a.ax)):
-                    return V('ids', ax=a.ax, own=None, fresh=True)
+                aax = a.ax or (a.el.ax if a.k == 'list' and a.el is not None
+                               and a.el.k == 'id' else None)
+                if aax and (a.k == 'ids' or (a.el is not None and
+                                             a.el.k == 'id')) and (
+                        b.k != 'ids' or b.ax in (None, aax)):
+                    return V('ids', ax=aax, own=None, fresh=True,
+                             lay=('new',))
             if isinstance(e.op, ast.Mult) and a.k == 'list' and \
                     b.k == 'len' and b.ax:
                 return V('md' if a.el is not None and a.el.k == 'none'
@@ -1526,7 +1544,8 @@ class AxisInterp:
         if name == 'len' and e.args:
             v = self.ev(e.args[0], env)
             if v.k in ('ids', 'md', 'per', 'list', 'pos', 'index') and v.ax:
-                return V('len', ax=v.ax, own=v.own)
+                return V('len', ax=v.ax, own=v.own,
+                         ref=v.lay if v.lay and v.lay != ('new',) else None)
             return V('scalar')
         if name == 'isinstance' and len(e.args) == 2:
             v = self.ev(e.args[0], env)
@@ -1695,6 +1714,12 @@ class AxisInterp:
     def shape_tuple(self, e, v, maj=None):
         res = self._shape_tuple(e, v, maj)
         r, c = v.elts
+        if res.k == 'matrix' and (r.ref or c.ref) and r.ax and c.ax and \
+                r.ax != c.ax:
+            lo = r.ref if r.ax == O else c.ref
+            ls = r.ref if r.ax == S else c.ref
+            if lo or ls:
+                res = res.with_(lay=(lo, ls))
         # a dimension of constant length 0 holds no entries: any order
         z = [x.k == 'const' and x.c == 0 for x in (r, c)]
         if res.k == 'matrix' and any(z):
@@ -1873,6 +1898,18 @@ class AxisInterp:
                     cur = _join_lay(cur, ml)
             if cur is not Ellipsis and cur is not None:
                 lay = (cur, None) if keep == O else (None, cur)
+            # blocks follow one another along the grown axis
+            gd = 0 if grows == O else 1
+            if e.args and isinstance(e.args[0], (ast.List, ast.Tuple)) and \
+                    len(mats) >= 2:
+                parts = [m.lay[gd] if m.k == 'matrix' and isinstance(
+                    m.lay, tuple) and len(m.lay) == 2 else None
+                    for m in mats]
+                if all(parts):
+                    cat = ('cat',) + tuple(parts)
+                    base = list(lay) if lay else [None, None]
+                    base[gd] = cat
+                    lay = tuple(base)
         return V('matrix', flip=bool(flip), fresh=True,
                  c=('grows', which, grows), lay=lay)
 
